@@ -515,3 +515,9 @@ package electreIII
 //@             (forall r int, c int :: apply(rowOf, r, c) == r && apply(colOf, r, c) == c)
 //@             && forall g int :: 0 <= g && g < matrix.Size ==> (*result)[g] == gcount(matrix.Data, matrix.Size, rowOf, utils.IsPositive, g, len(matrix.Data))
 //@                                                                        - gcount(matrix.Data, matrix.Size, colOf, utils.IsPositive, g, len(matrix.Data))
+
+// the parameter schema listed for this method is that of its input struct
+//@ func (*ElectreIIIPreferenceFunc).MethodParameters
+//@   property C20
+//@   nopanic
+//@   ensures [schema_of_the_methods_parameters] typeis(result, ElectreIIIInputParams)
